@@ -52,6 +52,23 @@ def _clamps(prog, rep, qual, var, after_assign=True):
                     lows.append((bound, val))
                 elif isinstance(c.ops[0], ast.Gt):
                     highs.append((bound, val))
+            # equivalent idiom:  V = np.clip(V, lo, hi)  /  np.clip(V, lo, hi, out=V)
+            for c in ast.walk(s):
+                if isinstance(c, ast.Call) and \
+                        (prog.dotted(c.func) or '').split('.')[-1] == 'clip' \
+                        and len(c.args) >= 3 and \
+                        isinstance(c.args[0], ast.Name) and \
+                        c.args[0].id == var:
+                    tgt_ok = (isinstance(s, ast.Assign) and
+                              isinstance(s.targets[0], ast.Name) and
+                              s.targets[0].id == var) or any(
+                        k.arg == 'out' and isinstance(k.value, ast.Name) and
+                        k.value.id == var for k in c.keywords)
+                    if tgt_ok:
+                        lo_ = paths.src(mod, c.args[1]).replace(' ', '')
+                        hi_ = paths.src(mod, c.args[2]).replace(' ', '')
+                        lows.append((lo_, lo_))
+                        highs.append((hi_, hi_))
         ok = len(lows) == 1 and len(highs) == 1
         if ok:
             ok = _same_bound(*lows[0]) and _same_bound(*highs[0])
